@@ -969,3 +969,64 @@ Section Sys.
     pose proof (Forall_nth_error _ _ _ _ Fn Ei) as H. simpl in H. congruence.
   Qed.
 End Sys.
+
+(** * Clearing every vector releases everything *)
+Section ClearAll.
+  Variable ok : nat -> N -> bool.
+  Notation step := (VectorModel.step ok false).
+
+  Lemma step_clear s i v :
+    sys_ok s -> nth_error (vecs s) i = Some v ->
+    exists al' v', step s (Clear i) = Done (mkSys (upd (vecs s) i v') al') (flat_map xev_out
+                     (if xdest v then dest_log (elems v) (count v) (N.to_nat (count v)) else [])) /\
+                   base v' = None /\ sys_ok (mkSys (upd (vecs s) i v') al').
+  Proof.
+    intros S E. pose proof S as (A & NB & F & _).
+    pose proof (Forall_nth_error _ _ _ _ F E) as V.
+    pose proof (clear_spec ok (heap s) v A NB V) as C.
+    pose proof (step_ok ok s (Clear i) S) as St.
+    cbn [VectorModel.step] in *. unfold with_vec in *. rewrite E in *.
+    destruct (clear ok false (heap s) v) as [[[al' v'] log]| |]; try contradiction.
+    destruct C as (_ & _ & _ & _ & _ & B & _ & _ & _ & ->). simpl in *.
+    exists al', v'. auto.
+  Qed.
+
+  (** bases None on a prefix of indices, cleared one by one *)
+  Lemma clear_from s k n :
+    sys_ok s -> (k + n = length (vecs s))%nat ->
+    (forall j v, (j < k)%nat -> nth_error (vecs s) j = Some v -> base v = None) ->
+    match fst (run step s (map Clear (seq k n))) with
+    | Done s' _ => sys_ok s' /\ Forall (fun v => base v = None) (vecs s')
+    | _ => False
+    end.
+  Proof.
+    revert s k. induction n as [|n IH]; intros s k S L P; cbn [seq map run fst].
+    - split; auto. apply Forall_forall. intros v Hv. apply In_nth_error in Hv. destruct Hv as (j & Ej).
+      apply (P j v); auto. assert (j < length (vecs s))%nat by (apply nth_error_Some; congruence). lia.
+    - assert (Hk : (k < length (vecs s))%nat) by lia.
+      destruct (nth_error (vecs s) k) as [v|] eqn:E; [|apply nth_error_None in E; lia].
+      destruct (step_clear s k v S E) as (al' & v' & St & B & S'). rewrite St.
+      specialize (IH (mkSys (upd (vecs s) k v') al') (Datatypes.S k) S').
+      simpl in IH. rewrite upd_length in IH.
+      assert (L' : (Datatypes.S k + n)%nat = length (vecs s)) by lia.
+      assert (P' : forall j u, (j < Datatypes.S k)%nat -> nth_error (upd (vecs s) k v') j = Some u -> base u = None).
+      { intros j u Hj Ej. apply nth_error_upd_Some in Ej. destruct Ej as [(_ & -> & _)|(Hn & Ej)]; auto.
+        apply (P j u); auto. lia. }
+      specialize (IH L' P').
+      destruct (run step (mkSys (upd (vecs s) k v') al') (map Clear (seq (Datatypes.S k) n))) as [r outs].
+      simpl in *. exact IH.
+  Qed.
+
+  Theorem clear_all_no_leak s :
+    sys_ok s ->
+    match fst (run step s (map Clear (seq 0 (length (vecs s))))) with
+    | Done s' _ => live (heap s') = []
+    | _ => False
+    end.
+  Proof.
+    intros S. pose proof (clear_from s 0 (length (vecs s)) S eq_refl) as H.
+    specialize (H ltac:(intros; lia)).
+    destruct (fst (run step s (map Clear (seq 0 (length (vecs s)))))); auto.
+    destruct H as (S' & Fn). apply no_leak; auto.
+  Qed.
+End ClearAll.
